@@ -90,6 +90,8 @@ def rep_case(draw, max_dim=5, max_gens=4, min_gens=1, min_dim=1, kinds=("real", 
         # rep.dtype then says int64 although the images are not integral
         mats[-1] = [[float(x) for x in row] for row in draw(gen.unimodular_int_matrix(n, 4, 2))]
         c["intlast"] = True
+    if kind in ("real", "complex") and draw(st.integers(0, 7)) == 0:
+        c["gscale"] = draw(st.sampled_from([1e-5, 3e-4, 2e3]))
     return c
 
 
@@ -151,6 +153,10 @@ def build(case, cls=None, names=None, **kw):
             M = np.real(M).astype(float)
         if case.get("intlast") and len(mats) == len(case["mats"]) - 1:
             M = np.rint(M).astype(np.int64)
+        if case.get("gscale") and M.dtype.kind != "i":
+            # generators far from the unit scale (determinants 1e-15 or 1e10): as good a
+            # representation into GL(n) as any
+            M = M * case["gscale"]
         rep[name] = M.copy()
         L.assign(name, M)
         mats.append(M)
@@ -161,6 +167,8 @@ def base_labels(ctx, case):
     ctx.label("kind=" + case["kind"], "n=%d" % case["n"], "gens=%d" % len(case["names"]))
     if case.get("intdtype"):
         ctx.label("int64-dtype")
+    if case.get("gscale"):
+        ctx.label("generators-far-from-unit-scale")
 
 
 def word_labels(ctx, w, L):
